@@ -535,15 +535,22 @@ async fn handle_streaming_pull_request(
         ));
     }
 
-    // Ack messages if appropriate.
-    if !request.ack_ids.is_empty() {
-        let start = ActivitySpan::start();
-        let ack_ids = request
-            .ack_ids
-            .iter()
-            .map(|ack_id| parser::parse_ack_id(ack_id))
-            .collect::<Result<Vec<_>, Status>>()?;
+    // Parse the whole message before applying any of it: a message that is rejected
+    // because of a malformed modification must not have acknowledged anything.
+    let ack_ids = request
+        .ack_ids
+        .iter()
+        .map(|ack_id| parser::parse_ack_id(ack_id))
+        .collect::<Result<Vec<_>, Status>>()?;
+    let deadline_modifications = parser::parse_deadline_modifications(
+        Instant::now(),
+        &request.modify_deadline_ack_ids,
+        &request.modify_deadline_seconds,
+    )?;
 
+    // Ack messages if appropriate.
+    if !ack_ids.is_empty() {
+        let start = ActivitySpan::start();
         let ack_id_count = ack_ids.len();
         subscription
             .acknowledge_messages(ack_ids)
@@ -561,15 +568,8 @@ async fn handle_streaming_pull_request(
     }
 
     // Extend deadlines if requested to do so.
-    if !request.modify_deadline_ack_ids.is_empty() {
+    if !deadline_modifications.is_empty() {
         let start = ActivitySpan::start();
-        let now = Instant::now();
-        let deadline_modifications = parser::parse_deadline_modifications(
-            now,
-            &request.modify_deadline_ack_ids,
-            &request.modify_deadline_seconds,
-        )?;
-
         let modifications_count = deadline_modifications.len();
         subscription
             .modify_ack_deadlines(deadline_modifications)
